@@ -938,7 +938,13 @@ fn op_lo_pipe<IntT: for<'a> UInt<'a>>(c: &Case, scratch: &str) -> String {
         max_depth: c.usize("depth"),
         max_indel_kmers: c.usize("ik"),
         nb_threads: 1,
-        reference_genome: None,
+        reference_genome: if c.opt("ref").is_some() {
+            let rp = format!("{dir}/ref.fa");
+            write_fasta(&rp, &[c.get("ref")], "g");
+            Some(std::path::PathBuf::from(rp))
+        } else {
+            None
+        },
     };
     let (len_kmer, sample_names, all_kmers, kmer_2_samples) = ska::skalo::input::build_graph(a, 1);
     let data_info = DataInfo { k_graph: len_kmer - 1, sample_names: sample_names.clone() };
@@ -974,6 +980,23 @@ fn op_lo_pipe<IntT: for<'a> UInt<'a>>(c: &Case, scratch: &str) -> String {
             )
         })
         .collect();
+    if c.opt("ref").is_some() {
+        // with a reference: (position, reference base, column) in position order
+        let vcf = std::fs::read_to_string(format!("{dir}/o_snps.vcf")).unwrap_or_default();
+        let pos: Vec<(String, String)> = vcf
+            .lines()
+            .filter(|l| !l.starts_with('#') && !l.is_empty())
+            .map(|l| {
+                let f: Vec<&str> = l.split('\t').collect();
+                (f[1].to_string(), f[3].to_string())
+            })
+            .collect();
+        let unsorted: Vec<String> = (0..ncol).map(|i| seqs.iter().map(|x| x.as_bytes()[i] as char).collect()).collect();
+        cols = pos.iter().zip(unsorted.iter()).map(|((p, r), col)| format!("{p}:{r}:{col}")).collect();
+        if pos.len() != unsorted.len() {
+            cols.push(format!("vcf-records={}-columns={}", pos.len(), unsorted.len()));
+        }
+    }
     let _ = std::fs::remove_dir_all(&dir);
     format!(
         "starts={} sg={} ig={} cols={} recs={}",
